@@ -232,7 +232,10 @@ def materialise(desc: dict) -> Built:
     # 2. concrete shells
     for p in desc["prods"]:
         bases = (ns[p["parent"]],) if p.get("parent") else ()
-        cls = type(p["name"], bases, {"__module__": modname, "__qualname__": p["name"]})
+        if desc.get("_pad_between"):  # allocation pattern BETWEEN class definitions (relative addresses of the classes)
+            ns.setdefault("__pad__", []).append(bytearray(int(desc["_pad_between"])))  # malloc'ed, like the class objects
+        shown = p.get("qualname", p["name"])  # factory-made classes may share one (module, qualname)
+        cls = type(shown, bases, {"__module__": modname, "__qualname__": shown})
         ns[p["name"]] = cls
         setattr(mod, p["name"], cls)
     # 3. fields (real type objects, so no string resolution is involved)
@@ -696,6 +699,21 @@ FIXED.append(
             {"name": "D", "parent": "Root", "fields": [["x", ["ref", "Root"]], ["y", ["ref", "Root"]]]},
         ],
         "start": "Root",
+    }
+)
+
+
+FIXED.append(
+    {  # two factory-made classes that share their (module, qualname); no abstract class at all, a concrete start symbol
+        # whose name sorts after theirs: every NAME-based order of the symbols ties on the two
+        "name": "fx_twins",
+        "abstracts": [],
+        "prods": [
+            {"name": "zRoot", "parent": None, "fields": [["a", ["ref", "P1"]], ["b", ["ref", "P2"]], ["k", ["ann", ["int"], ["IntRange", 0, 5]]]]},
+            {"name": "P1", "qualname": "Pair", "parent": None, "fields": [["x", ["ann", ["int"], ["IntRange", 0, 3]]]]},
+            {"name": "P2", "qualname": "Pair", "parent": None, "fields": [["y", ["bool"]], ["z", ["bool"]]]},
+        ],
+        "start": "zRoot",
     }
 )
 
